@@ -12,6 +12,7 @@ ANY size.  Lookups return `Option` (`none` = a read outside the `reals` collecti
 theorem also proves that the result is `some _`, i.e. no out-of-table read happens.
 -/
 import CelerVerif.Lemmas.CalcExample
+import CelerVerif.Lemmas.CalcCont
 
 namespace CelerVerif.Calc
 open CelerVerif
@@ -100,6 +101,18 @@ theorem xs_extrapolation (d : XsGrid ℝ) (w : d.WF) (e : ℝ) :
       d.calc floorIdx e
         = some (if d.size - 1 ≥ d.prime then d.y (d.size - 1) / e else d.y (d.size - 1))) :=
   ⟨w.calc_below, w.calc_above⟩
+
+/-- the looked-up value (`d.value e`, the calculator as a total function) is continuous at
+    every knot — from both sides, including the knot at the prime index (below it the upper
+    point is un-scaled by its energy, above it the scaled interpolant is divided by E) and the
+    two ends of the grid (constant or 1/E extrapolation) — and equals the tabulated value there -/
+theorem xs_continuous_at_knots (d : XsGrid ℝ) (w : d.WF) (i : ℕ) (hi : i < d.size) :
+    ContinuousAt d.value (d.en i) ∧ d.value (d.en i) = d.knot i :=
+  ⟨continuousAt_iff_continuous_left_right.mpr
+    ⟨w.value_continuous_left hi, w.value_continuous_right hi⟩, w.value_knot hi⟩
+
+example : (exGrid 1).WF ∧ (1 : ℕ) < (exGrid 1).size ∧ (exGrid 1).prime = 1 :=
+  ⟨exGrid_WF 1, by simp [exGrid], rfl⟩
 
 /-! ## RangeCalculator / InverseRangeCalculator -/
 
@@ -236,6 +249,41 @@ theorem meanLoss_monotone_across_switch_partial (loss rng : XsGrid ℝ)
     (_h2 : meanEnergyLoss floorIdx loss rng lim E range s2 = some L2) (hsw : E * lim ≤ L2) :
     ∃ L1, meanEnergyLoss floorIdx loss rng lim E range s1 = some L1 ∧ L1 ≤ L2 :=
   ⟨_, meanLoss_linear hc hlin, by linarith⟩
+
+/-- the hypothesis `hbr` of `meanLoss_full_at_range_partial` cannot be dropped: kernel-checked
+    witness satisfying every hypothesis of `meanLoss_bounds` (grid 0..2 with 3 points, loss
+    table ½,½,½, range table 1,2,4, limit 1, E = 1, so range = 1) where `step = range` loses
+    only ½ < E.  (Replayed on the real code: corpus/C14/meanloss_findings.ops, known finding
+    `meanloss-step-eq-range-linear-branch`.) -/
+theorem meanLoss_full_at_range_fails :
+    ∃ (loss rng : XsGrid ℝ) (lim E range L : ℝ), loss.WF ∧ loss.Pos ∧ rng.WF ∧ rng.Pos ∧
+      rng.Incr ∧ 0 < E ∧ 0 < lim ∧ lim ≤ 1 ∧ rng.range floorIdx E = some range ∧
+      meanEnergyLoss floorIdx loss rng lim E range range = some L ∧ L < E := by
+  refine ⟨exConst (1 / 2), exGrid noScaling, 1, 1, 1, 1 * (1 / 2), exConst_WF _,
+    exConst_Pos _ (by norm_num), exGrid_WF _, exGrid_Pos _, exGrid_Incr _, one_pos, one_pos,
+    le_refl _, exGrid_range_one, ?_, by norm_num⟩
+  exact meanLoss_linear (exConst_calc_one _) (by norm_num)
+
+/-- the hypothesis `hsw` of `meanLoss_monotone_across_switch_partial` cannot be dropped:
+    kernel-checked witness (same grid, loss table 4,4,4, range table 1,2,4, limit ½, E = 1,
+    range = 1): the step 3/25 (linear formula) loses 12/25, the LONGER step 1/8 (range curve)
+    loses only 15/64.  (Real code: known finding `meanloss-decreases-across-linear-switch`.) -/
+theorem meanLoss_monotone_across_switch_fails :
+    ∃ (loss rng : XsGrid ℝ) (lim E range s1 s2 L1 L2 : ℝ), loss.WF ∧ loss.Pos ∧ rng.WF ∧ rng.Pos ∧
+      rng.Incr ∧ 0 < E ∧ 0 < lim ∧ lim ≤ 1 ∧ rng.range floorIdx E = some range ∧
+      0 < s1 ∧ s1 < s2 ∧ s2 ≤ range ∧
+      meanEnergyLoss floorIdx loss rng lim E range s1 = some L1 ∧
+      meanEnergyLoss floorIdx loss rng lim E range s2 = some L2 ∧ L2 < L1 := by
+  refine ⟨exConst 4, exGrid noScaling, 1 / 2, 1, 1, 3 / 25, 1 / 8, 3 / 25 * 4, 1 - 49 / 64,
+    exConst_WF _, exConst_Pos _ (by norm_num), exGrid_WF _, exGrid_Pos _, exGrid_Incr _, one_pos,
+    by norm_num, by norm_num, exGrid_range_one, by norm_num, by norm_num, by norm_num, ?_, ?_,
+    by norm_num⟩
+  · exact meanLoss_linear (exConst_calc_one _) (by norm_num)
+  · rw [meanLoss_curve (exConst_calc_one _) (by norm_num) (by norm_num),
+      exGrid_invRange_below _ (by norm_num)]
+    simp only [Option.map_some]
+    congr 1
+    norm_num
 
 /-! ## range_to_step -/
 
